@@ -457,7 +457,9 @@ int main(int argc, char* const* argv)
         }
         instance.tx = MakeTransactionRef(mtx);
 
-        instance.configure_tx_txin();
+        if (!instance.configure_tx_txin() || (instance.sigver != SigVersion::TAPROOT && instance.sigver != SigVersion::TAPSCRIPT)) {
+            abort("the input transaction's output is not a taproot output spendable by this witness");
+        }
         instance.execdata.m_codeseparator_pos = 0xFFFFFFFFUL;
         instance.execdata.m_codeseparator_pos_init = true;
 
